@@ -39,9 +39,18 @@ KERNELS = [
 ]
 
 CHK = ["--signed-overflow-check", "--div-by-zero-check", "--bounds-check", "--pointer-check", "--conversion-check"]
-VT = {"quick": [(1, 1), (1, 2), (2, 1), (3, 5), (4, 4), (8, 16), (96, 128), (252, 344)],
-      "thorough": [(v, t) for v in range(1, 9) for t in range(1, 9)] + [(8, 16), (96, 128), (160, 192), (252, 344), (392, 336), (420, 249)]}
-ES = {"quick": [1, 2, 4], "thorough": [1, 2, 4, 8]}
+VT = {"quick": [(1, 2), (3, 5), (4, 4), (8, 16)],
+      "thorough": [(v, t) for v in range(1, 9) for t in range(1, 9)] + [(8, 16), (16, 8), (12, 20), (32, 64), (96, 128)]}
+LEMMA_VT = {"quick": [(1, 1), (3, 5), (7, 9), (8, 16), (96, 128)],
+            "thorough": [(1, 1), (2, 3), (3, 5), (7, 9), (8, 16), (12, 20), (96, 128), (160, 192), (252, 344)]}
+# the view-order offset lemma contains view * (axial positions of the segment), a product of two symbolic numbers:
+# tractable for power-of-two / tiny sizes only
+LEMMA_OFF_VT = {"quick": [(1, 1), (2, 3), (8, 16), (64, 128)], "thorough": [(1, 1), (2, 3), (3, 5), (4, 4), (8, 16), (64, 128), (256, 512)]}
+POW2 = [(1, 1, 1), (2, 4, 2), (8, 16, 4), (64, 128, 2), (256, 512, 4)]
+ES = {"quick": [1, 4], "thorough": [1, 2, 4, 8]}
+
+
+SH = int(os.environ.get("C02_SHARDS", "4"))
 
 
 def jobs(tier, gen_dir):
@@ -49,7 +58,7 @@ def jobs(tier, gen_dir):
 
     def J(name, entry, enforce=None, repl=(), lc=False, kind="enforce", defs=None, kernels=(), **kw):
         out.append(Job("c02/" + name, HARNESS, entry, enforce=enforce, replace=list(repl), loop_contracts=lc, kernels=list(kernels), flags=CHK,
-                       no_base_flags=True, min_obligations=kw.pop("min_obligations", 3), timeout=300, backend=kw.pop("backend", "kissat"), kind=kind,
+                       no_base_flags=True, min_obligations=kw.pop("min_obligations", 3), timeout=kw.pop("timeout", 300), backend=kw.pop("backend", "kissat"), kind=kind,
                        defines=defs or {}, object_bits=10, **kw))
 
     J("K_find_int", "h_K_find_int", enforce="K_find_int", lc=True, kernels=["K_find_int"])
@@ -57,19 +66,27 @@ def jobs(tier, gen_dir):
     for V, T in VT[tier]:
         d = {"C02_V": V, "C02_T": T}
         J("K_pdm_get_index/V=%d/T=%d" % (V, T), "h_K_pdm_get_index", enforce="K_pdm_get_index", repl=["K_find_int"], lc=True, defs=d,
-          kernels=["K_pdm_get_index"], params={"num_views": V, "num_tangential_poss": T})
-        J("lemma_index_injective/V=%d/T=%d" % (V, T), "h_lemma_index_injective", kind="lemma", defs=d, params={"num_views": V, "num_tangential_poss": T},
-          min_obligations=2)
+          kernels=["K_pdm_get_index"], params={"num_views": V, "num_tangential_poss": T}, shards=SH)
         for E in ES[tier]:
             d2 = dict(d)
             d2["C02_E"] = E
             J("K_pds_get_offset/V=%d/T=%d/E=%d" % (V, T, E), "h_K_pds_get_offset", enforce="K_pds_get_offset", repl=["K_find_int"], lc=True, defs=d2,
-              kernels=["K_pds_get_offset"], params={"num_views": V, "num_tangential_poss": T, "bytes_per_element": E})
-            J("lemma_offset_disjoint/V=%d/T=%d/E=%d" % (V, T, E), "h_lemma_offset_disjoint", kind="lemma", defs=d2,
-              params={"num_views": V, "num_tangential_poss": T, "bytes_per_element": E}, min_obligations=2)
+              kernels=["K_pds_get_offset"], params={"num_views": V, "num_tangential_poss": T, "bytes_per_element": E}, shards=SH)
+    for V, T in LEMMA_VT[tier]:
+        d = {"C02_V": V, "C02_T": T, "C02_E": 4}
+        J("lemma_index_injective/V=%d/T=%d" % (V, T), "h_lemma_index_injective", kind="lemma", defs=d, params={"num_views": V, "num_tangential_poss": T},
+          min_obligations=5, timeout=300 if tier == "quick" else 1200)
+    for V, T in LEMMA_OFF_VT[tier]:
+        d = {"C02_V": V, "C02_T": T, "C02_E": 4}
+        J("lemma_offset_disjoint/V=%d/T=%d/E=4" % (V, T), "h_lemma_offset_disjoint", kind="lemma", defs=d,
+          params={"num_views": V, "num_tangential_poss": T, "bytes_per_element": 4}, min_obligations=5, timeout=300 if tier == "quick" else 1200)
+    for V, T, E in POW2:
+        J("lemma_forms_agree/V=%d/T=%d/E=%d" % (V, T, E), "h_lemma_forms_agree", kind="lemma", defs={"C02_V": V, "C02_T": T, "C02_E": E},
+          params={"num_views": V, "num_tangential_poss": T, "bytes_per_element": E}, min_obligations=2)
     for k in ("K_pdm_get_index", "K_pds_get_offset"):
         out.append(Job("c02/canary/" + k, HARNESS, "h_" + k, enforce=k, replace=["K_find_int"], kernels=[k], kind="canary", loop_contracts=True,
-                       defines={"CANARY_" + k: None}, expect_fail=r"%s\.postcondition" % k, no_base_flags=True, timeout=300, object_bits=10))
+                       defines={"CANARY_" + k: None, "C02_V": 2, "C02_T": 2, "C02_E": 2}, expect_fail=r"%s\.postcondition" % k, no_base_flags=True, timeout=300, object_bits=10,
+                       backend="kissat"))
     return out
 
 
@@ -87,3 +104,20 @@ UNDECIDED_CLAUSES = ["on-disk numeric type / byte order conversion, Interfile he
 def param_summary(tier):
     return {"(num_views, num_tangential_poss)": VT[tier], "bytes_per_element": ES[tier], "segments": "symbolic, <= 8, any permutation",
             "TOF bins": "symbolic, <= 8, any permutation", "storage order": "symbolic (4 supported + unsupported)"}
+
+
+# ---------------- native replay (real STIR libraries rebuilt from the working tree) ----------------
+from vlib import native
+
+
+def replay(job, o, workroot, repo):
+    exe = os.path.join(workroot, "c02_replay")
+    if not os.path.exists(exe):
+        exe, info = native.build(repo, os.path.join(VERIF, "replay", "c02.cpp"), exe)
+        if not exe:
+            return {"status": "unavailable", "detail": "replay driver did not build: " + info}
+    for mode in ("range", "paths"):
+        st, detail = native.run(exe, [mode], timeout=900)
+        if st == "confirmed":
+            return {"status": "confirmed", "detail": detail, "command": "c02_replay " + mode, "from_verifier_counterexample": False}
+    return {"status": "not-reproduced", "detail": "c02_replay range; c02_replay paths (in-memory, stream with permuted segment sequence, both storage orders)"}
